@@ -4,9 +4,12 @@
      `update_data` = UpdateData (returns the bytes and the updated struct), Data() of commands and descriptors;
    - Proofs/ScteLogical.v: `logical fs st` = the SCTE 35 logical record carried by state st (fs = the foreign
      descriptors whose bytes st keeps opaque), with CRC_32 := ComputeCRC of the preceding bytes; `normal fs st` =
-     every field within its wire width, section_length < 1024 (the encoder keeps 10 bits), UPID/MID exclusivity,
-     every emitted splice_time() carries a time (see C09_untimed_refuted);
-   - Proofs/ScteRoundtrip.v: `decodable` = normal + table_id 0xFC + clear + well-formed foreign descriptors.
+     every field within its wire width, section_length < 1024 (the encoder keeps 10 bits), UPID/MID exclusivity and
+     MID element lengths as every setter history maintains them (C09_history_inv);
+   - Proofs/ScteRoundtrip.v: `decodable` = normal + table_id 0xFC + clear + well-formed foreign descriptors + `timed_cmd`
+     (a time_signal and a timed program splice_insert carry their time: the decoder refuses the other forms, C08).
+   The model is of /repo HEAD, i.e. with F9 and the three later repairs ce48cf3 (0x7F), 0cd2c00 (upidLen), 0fcfd24 (splice_null
+   keeps pts_adjustment); the clauses those repaired were `_refuted` theorems before and are positive ones below.
    The CRC is stated against Scte.crc_model, the transliteration of gots.ComputeCRC; Module Crc (C13) proves that
    algorithm equal to CRC-32/MPEG-2, whence "the CRC of the whole section is zero". *)
 From Gots Require Import Base.Prelude Model.Pts Model.Scte Model.ScteEnc Spec.Scte35Spec
@@ -69,8 +72,8 @@ Print Assumptions C09_decode_encode_getters.
 
 (* re-encoding a decoded canonical section reproduces it byte for byte.  `canonical` (Proofs/ScteCanonical.v): supported,
    sap_type 3, exact splice_command_length, no stuffing, foreign descriptors before segmentation descriptors,
-   section_length < 1024, CRC_32 = ComputeCRC of the preceding bytes; and, because of findings C09-a / C09-b,
-   no untimed component in a timed component list and pts_adjustment 0 for splice_null *)
+   section_length < 1024, CRC_32 = ComputeCRC of the preceding bytes.  Untimed components and a splice_null with any
+   pts_adjustment are included (C09_untimed_reproduced, C09_null_adjustment_kept are instances) *)
 Theorem C09_encode_decode_canonical : forall s, canonical s ->
   new_scte35 (ser_splice_info s) = Ok (expected s) /\ fst (update_data (expected s)) = ser_section s.
 Proof. exact encode_decode_canonical. Qed.
@@ -225,7 +228,8 @@ Proof. exact ins_flag_clear. Qed.
 Print Assumptions C09_insert_flag_clear.
 
 (* every history from CreateSCTE35 keeps: command type consistent, tier 12 bits, command / component pts 33 bits,
-   UPID / MID exclusivity, 40-bit durations, descriptors owned by the signal, table header of a splice_info_section *)
+   UPID / MID exclusivity, MID element length = length of its bytes (also after MID()[j].SetUPID), 40-bit durations,
+   descriptors owned by the signal, table header of a splice_info_section *)
 Theorem C09_history_inv : forall ops, sig_inv (run_script create_scte35 ops).
 Proof. exact history_inv. Qed.
 Print Assumptions C09_history_inv.
@@ -268,32 +272,37 @@ Print Assumptions C09_normalb_sound.
    logical reads exactly the fields the getters return; so the setter laws above carry over to the bytes whenever
    the resulting state is normal. *)
 
-(* ---- refuted clauses (faithful model of the code as it is; witnesses by vm_compute in Proofs/ScteWitness.v, where the
-   concrete values untimed_section, stale_script, null_adj_section, ex_script, ex_state, ex_canon are defined; each is
-   replayed on the real code by bin/check, see notes/findings/C09.md) ---- *)
-(* (a) a splice_time() without time is written 0x7E, reserved bit 0 cleared: a canonical component-mode section with an
-   untimed component is decoded correctly but NOT reproduced byte for byte *)
-Theorem C09_untimed_refuted :
-  exists s sc, supported s /\ new_scte35 (ser_splice_info s) = Ok sc /\
-  firstn 23 (fst (update_data sc)) <> firstn 23 (ser_section s).
-Proof. exact w_untimed_refuted. Qed.
-Print Assumptions C09_untimed_refuted.
+(* ---- the three clauses that were refuted before ce48cf3 / 0cd2c00 / 0fcfd24, now proved (general theorems above; the
+   concrete values untimed_section, setupid_script, null_adj_section of Proofs/ScteWitness.v are the replay lines of the
+   `fixed` entries of known_findings.json, re-run against the real code by every bin/check C09) ---- *)
+(* (a) a canonical component-mode section with an UNTIMED component is reproduced byte for byte (0x7F at offset 22) *)
+Theorem C09_untimed_reproduced : canonical untimed_section /\
+  fst (update_data (expected untimed_section)) = ser_section untimed_section /\
+  nth 22 (ser_section untimed_section) 0 = 127.
+Proof. exact w_untimed_canonical. Qed.
+Print Assumptions C09_untimed_reproduced.
 
-(* (b) UPID.SetUPID through MID()[j] leaves the element's length stale: the getter shows the new bytes, the next
-   encoding is not decodable *)
-Theorem C09_mid_setupid_refuted :
-  let st := run_script create_scte35 stale_script in
+(* (b) UPID.SetUPID through MID()[j]: getter and length follow, on every descriptor state; and on the former witness
+   the next encoding decodes to the struct itself *)
+Theorem C09_mid_setupid : forall d j b, d_upid_type d = SegUPIDMID -> (j < length (d_mid d))%nat ->
+  let d' := apply_desc_op (DMidSetUPID j b) d in
+  u_upid (nth j (get_mid d') (mkupid 0 0 [])) = b /\ u_len (nth j (d_mid d') (mkupid 0 0 [])) = len b /\
+  u_type (nth j (get_mid d') (mkupid 0 0 [])) = u_type (nth j (d_mid d) (mkupid 0 0 [])) /\
+  length (d_mid d') = length (d_mid d).
+Proof. exact mid_setupid_law. Qed.
+Print Assumptions C09_mid_setupid.
+Theorem C09_mid_setupid_roundtrip :
+  let st := run_script create_scte35 setupid_script in
   map (fun u => u_upid u) (get_mid (nth 0 (s_descs st) (seg0 None))) = [[1; 2; 3; 4]] /\
-  new_scte35 (0 :: fst (update_data st)) = Err E.InvalidSCTE35Length.
-Proof. exact w_mid_setupid_refuted. Qed.
-Print Assumptions C09_mid_setupid_refuted.
+  new_scte35 (0 :: fst (update_data st)) = Ok (snd (update_data st)).
+Proof. exact w_mid_setupid_roundtrip. Qed.
+Print Assumptions C09_mid_setupid_roundtrip.
 
-(* (c) the decoder drops pts_adjustment of a splice_null, so such a section is not reproduced *)
-Theorem C09_null_adjustment_refuted :
-  exists s sc, supported s /\ new_scte35 (ser_splice_info s) = Ok sc /\
-  firstn 16 (fst (update_data sc)) <> firstn 16 (ser_section s).
-Proof. exact w_null_adjustment_refuted. Qed.
-Print Assumptions C09_null_adjustment_refuted.
+(* (c) a splice_null keeps its pts_adjustment: PTS() reports it and re-encoding reproduces the section *)
+Theorem C09_null_adjustment_kept : canonical null_adj_section /\
+  fst (update_data (expected null_adj_section)) = ser_section null_adj_section /\ s_pts (expected null_adj_section) = 5.
+Proof. exact w_null_adjustment_kept. Qed.
+Print Assumptions C09_null_adjustment_kept.
 
 (* ---- non-vacuity (concrete values in Proofs/ScteWitness.v) ---- *)
 Example C09_example_canonical :
